@@ -1,0 +1,9 @@
+//go:build verif
+
+// Contracts for package router, checked by /verif (bfvc). Comment-only.
+package router
+
+//@ ifacegetters DiscoverRoutes
+
+//@ func (*DiscoverRoutesWithPeerIDs).IsEquivalent
+//@   ensures ret ==> samegetters(d, other, DiscoverRoutes)
